@@ -144,6 +144,8 @@ Proof.
     { intros o S -> -> V. split; [apply grows_refl|]. right. exists e, o. splits; auto. intros v VV; congruence. }
     destruct e; try (destruct (step c s _) as [s1 o1] eqn:E; inv H; eapply G; eauto; fail).
     + inv H. split; [apply grows_refl|left; auto].
+    + inv H. split; [apply grows_refl|left; auto].
+    + inv H. split; [apply grows_refl|left; auto].
     + destruct cv; [inv H; split; [apply grows_refl|left; auto]|].
       destruct (step c s _) as [s1 o1] eqn:E; inv H; eapply G; eauto.
   - destruct (request_of s) as [req|] eqn:R; [|inv H; split; [apply grows_refl|left; auto]].
@@ -162,6 +164,32 @@ Proof.
     right. eexists; eexists; splits; eauto. intros v V; discriminate.
   - destruct (step c s _) as [s1 o1] eqn:S. inv H. split; [apply grows_refl|].
     right. eexists; eexists; splits; eauto. intros v V. inv V. right. exists k. destruct kafka; auto.
+Qed.
+
+(* the composed runs are honest: results come from the cluster, which accounts for every payload *)
+Lemma cstep_honest : forall c s lg ce s' lg' ents, cstep c s lg ce = (s', lg', ents) ->
+  Forall (fun eo : event * list output => honest_ev (fst eo) = true) ents.
+Proof.
+  intros c s lg ce s' lg' ents H. destruct ce as [e|pl|kafka k|[pl|]|kafka k]; unfold cstep in H.
+  - destruct e; try (destruct (step c s _) as [s1 o1]; inv H; repeat constructor; fail); try (inv H; constructor).
+    destruct cv; [inv H; constructor|]. destruct (step c s _) as [s1 o1]; inv H; repeat constructor.
+  - destruct (request_of s) as [req|]; [|inv H; constructor].
+    destruct (serve (c_acks c) req pl lg) as [[l1 rs] fs]. destruct (step c s _) as [s1 o1]. inv H. repeat constructor.
+  - destruct (step c s _) as [s1 o1]. inv H. repeat constructor.
+  - destruct (request_of s) as [req|].
+    + destruct (serve (c_acks c) req pl lg) as [[l1 rs] fs]. destruct (step c s _) as [s1 o1]. inv H. repeat constructor.
+    + destruct (step c s _) as [s1 o1]. inv H. repeat constructor.
+  - destruct (step c s _) as [s1 o1]. inv H. repeat constructor.
+  - destruct (step c s _) as [s1 o1]. inv H. repeat constructor.
+Qed.
+
+Lemma crun_honest : forall c ces s lg s' lg' tr, crun c s lg ces = (s', lg', tr) -> honest (map fst tr).
+Proof.
+  induction ces as [|ce r IH]; simpl; intros s lg s' lg' tr H.
+  - inv H. constructor.
+  - destruct (cstep c s lg ce) as [[s1 lg1] t1] eqn:E. destruct (crun c s1 lg1 r) as [[s2 lg2] t2] eqn:E2. inv H.
+    rewrite map_app. apply Forall_app; split; [|eapply IH; eauto].
+    apply cstep_honest in E. clear - E. induction t1; simpl; [constructor|]. inversion E; subst. constructor; auto.
 Qed.
 
 Lemma crun_snoc : forall c ces s lg ce,
@@ -219,6 +247,8 @@ Proof.
   - rewrite crun_snoc in H. destruct (crun c s0 [] ces) as [[s1 lg1] t1] eqn:E1.
     destruct (cstep c s1 lg1 ce) as [[s2 lg2] t2] eqn:E2. inv H.
     destruct (IH _ _ _ eq_refl) as [R1 G1].
+    pose proof (crun_honest _ _ _ _ _ _ _ E1) as HN1.
+    pose proof (cstep_honest _ _ _ _ _ _ _ E2) as HN2.
     destruct (cstep_spec _ _ _ _ _ _ _ E2) as [GR [[-> ->]|(e2 & o2 & -> & ST & VAL)]].
     + rewrite app_nil_r. split; auto. intros. rewrite <- (app_nil_r (map fst t1)).
       eapply logged_mono; eauto.
@@ -227,10 +257,12 @@ Proof.
       split; auto. intros tr1 e outs tr2 sid t p err off E I.
       apply snoc_split in E as [(-> & -> & EQ)|(tr2' & -> & ->)].
       * inv EQ.
-        destruct (success_truthful c has_t api0 cache0 _ _ _ _ _ _ _ _ _ _ _ _ R2 eq_refl I)
-          as (A & -> & v & pls' & ms & x & V & AK & LP & IP & X1 & X2 & X3 & X4).
+        assert (HN : honest (map fst (tr1 ++ [(e, outs)]))).
+        { rewrite map_app. apply Forall_app; split; auto. inversion HN2; subst. repeat constructor; auto. }
+        destruct (success_truthful c has_t api0 cache0 _ _ _ _ _ _ _ _ _ _ _ _ HN R2 eq_refl I)
+          as (A & -> & v & pls' & ms & x & V & AK & LP & IP & X1 & X2 & X3 & _ & X4).
         destruct (VAL _ V) as [(req & pl & rs & fs & RQ & SV & ->)|(k & [-> | ->])]; [|destruct AK|destruct AK].
-        pose proof (run_inv _ _ _ _ _ _ _ R1) as INV.
+        pose proof (run_inv _ _ _ _ _ _ _ HN1 R1) as INV.
         unfold request_of in RQ. destruct (ph s1) as [| | |pls cur|] eqn:P; try discriminate. injection RQ as <-.
         pose proof (i_prod _ _ _ _ INV) as IPR. rewrite P in IPR. unfold viewf in IPR. rewrite IPR in LP. injection LP as <-.
         pose proof (i_wf _ _ _ _ INV) as W. unfold phase_wf in W. rewrite P in W. destruct W as [[ND _] _].
@@ -241,6 +273,58 @@ Proof.
         destruct (serve_ack _ _ _ _ _ _ _ _ _ _ SV ND' IP AR) as (pre & post & L1 & L2).
         exists x, ms, pre, post. splits; auto.
       * rewrite map_app. eapply logged_mono; eauto.
+Qed.
+
+(* acks = 0: a send fires with None only if the cluster was given its payload (the request was not lost on the way) *)
+Lemma serve_not_lost : forall req acks pl lg lg' rs fs x ms,
+  serve acks req pl lg = (lg', rs, fs) -> In (x, ms) req -> ~ In x (map fst fs) ->
+  forall k app, plan_get pl x <> RLost k app.
+Proof.
+  induction req as [|[y ms0] r IH]; simpl; intros acks pl lg lg' rs fs x ms H I NF k app E; [destruct I|].
+  destruct I as [I|I].
+  - inv I. rewrite E in H. destruct (serve acks r pl _) as [[l1 r1] f1]. inv H. apply NF. left; reflexivity.
+  - destruct (plan_get pl y) as [|e a|k' a].
+    + destruct (serve acks r pl _) as [[l1 r1] f1] eqn:S. inv H. eapply IH; eauto.
+    + destruct (e =? 0); destruct (serve acks r pl _) as [[l1 r1] f1] eqn:S; inv H; eapply IH; eauto.
+    + destruct (serve acks r pl _) as [[l1 r1] f1] eqn:S. inv H. eapply IH; eauto. intros X; apply NF; right; auto.
+Qed.
+
+Definition served (c : cfg) (tr1 : list (event * list output)) (x : send) (p : Z) (ms : list (Z * Z)) : Prop :=
+  exists req pl lg0 lg1 rs fs, last_produce tr1 = Some req /\ In ((s_topic x, p), ms) req /\
+    serve (c_acks c) req pl lg0 = (lg1, rs, fs) /\ (forall k app, plan_get pl (s_topic x, p) <> RLost k app).
+
+Lemma composed_none : forall ces s lg tr, crun c s0 [] ces = (s, lg, tr) ->
+  forall tr1 e outs tr2 sid, tr = tr1 ++ (e, outs) :: tr2 -> In (OOutcome sid ONone) outs ->
+  c_acks c = 0 /\ exists x p ms, In x (accepted 0 (map fst tr)) /\ s_id x = sid /\ contiguous x ms /\ served c tr1 x p ms.
+Proof.
+  induction ces as [|ce ces IH] using rev_ind; intros s lg tr H.
+  - inv H. intros tr1 e outs tr2 sid E. destruct tr1; discriminate.
+  - rewrite crun_snoc in H. destruct (crun c s0 [] ces) as [[s1 lg1] t1] eqn:E1.
+    destruct (cstep c s1 lg1 ce) as [[s2 lg2] t2] eqn:E2. inv H.
+    destruct (composed_run _ _ _ _ E1) as [R1 _].
+    pose proof (crun_honest _ _ _ _ _ _ _ E1) as HN1.
+    pose proof (cstep_honest _ _ _ _ _ _ _ E2) as HN2.
+    destruct (cstep_spec _ _ _ _ _ _ _ E2) as [GR [[-> ->]|(e2 & o2 & -> & ST & VAL)]].
+    + rewrite app_nil_r. eapply IH; eauto.
+    + intros tr1 e outs tr2 sid E I.
+      assert (R2 : run c s0 (map fst (t1 ++ [(e2, o2)])) = (s, t1 ++ [(e2, o2)])).
+      { rewrite map_app, run_app, R1. simpl. rewrite ST. reflexivity. }
+      apply snoc_split in E as [(-> & -> & EQ)|(tr2' & -> & ->)].
+      * inv EQ.
+        assert (HN : honest (map fst (tr1 ++ [(e, outs)]))).
+        { rewrite map_app. apply Forall_app; split; auto. inversion HN2; subst. repeat constructor; auto. }
+        destruct (success_none_truthful c has_t api0 cache0 _ _ _ _ _ _ _ _ HN R2 eq_refl I)
+          as (A & v & pls' & p & ms & x & V & X1 & X2 & HO & LP & IP & CT).
+        split; auto. exists x, p, ms. splits; auto.
+        destruct (VAL _ V) as [(req & pl & rs & fs & RQ & SV & ->)|(k & [-> | ->])]; [|destruct HO|destruct HO].
+        pose proof (run_inv _ _ _ _ _ _ _ HN1 R1) as INV.
+        unfold request_of in RQ. destruct (ph s1) as [| | |pls cur|] eqn:P; try discriminate. injection RQ as <-.
+        pose proof (i_prod _ _ _ _ INV) as IPR. rewrite P in IPR. unfold viewf in IPR. rewrite IPR in LP. injection LP as <-.
+        eexists; exists pl, lg1, lg, rs, fs. splits; eauto.
+        eapply serve_not_lost; eauto.
+        unfold mk_value in HO. destruct fs; [intros []|]. destruct HO as [_ HO]. exact HO.
+      * destruct (IH _ _ _ eq_refl _ _ _ _ _ eq_refl I) as (A & x & p & ms & X1 & X2 & CT & SV). split; auto.
+        exists x, p, ms. splits; auto. rewrite map_app, accepted_app. apply in_or_app; auto.
 Qed.
 
 Lemma composed_truthful : forall ces s lg tr tr1 e outs tr2 sid t p err off,
